@@ -8,6 +8,7 @@ import Drivers.PayoutD
 import Drivers.MintD
 import Drivers.UbdD
 import Drivers.WasmD
+import Drivers.BlockhashD
 /-
   Chain driver: reads the trace of the real application (one JSON object per line),
   runs the model on every operation from the *observed* pre-state, compares the
@@ -17,6 +18,7 @@ import Drivers.WasmD
 open Lean Shentu Drivers
 
 structure DS where
+  bh : Shentu.BlockhashD.St := {}
   sys : Sys := default
   hist : Int := 0
   line : Nat := 0
@@ -1043,6 +1045,15 @@ partial def loop (hIn : IO.FS.Stream) (ds : DS) : IO DS := do
         let mut ds := { ds with h := J.intOf j "h" }
         for k in r.stats do ds := stat ds (if k.startsWith "mon." then k else "sit." ++ k)
         ds := { ds with stats := bump ds.stats (if J.intOf j "code" == 0 then "tx.cvm.wasm.ok" else "tx.cvm.wasm.fail") 1 }
+        for (kind, props, name, detail) in r.findings do
+          ds ← finding ds kind props name detail
+        pure ds
+      | "blockhash" => do
+        -- C16/C20: one call of a contract returning BLOCKHASH(NUMBER - k) (profile "blockhash")
+        let (bh, r) := BlockhashD.check ds.bh j
+        let mut ds := { ds with bh := bh, h := J.intOf j "h" }
+        for k in r.stats do ds := stat ds ("sit." ++ k)
+        ds := { ds with stats := bump ds.stats "tx.cvm.blockhash.ok" 1 }
         for (kind, props, name, detail) in r.findings do
           ds ← finding ds kind props name detail
         pure ds
